@@ -126,7 +126,13 @@ def run(ctx):
             src = W.expand(sev.call_args(nxt[0])[0])
             while isinstance(src, tuple) and src[0] == "reader":
                 src = src[1]
-            okn = is_call(src) and callee_name(src[1]) == "enumerate" and W.expand(src[2][0]) in (("field", ("param", sr.path, 1), "requests"), ("reader", ("field", ("param", sr.path, 1), "requests")))
+            REQS = ("field", ("param", sr.path, 1), "requests")
+            okn = is_call(src) and callee_name(src[1]) == "enumerate" and W.expand(src[2][0]) in (REQS, ("reader", REQS))
+            if not okn:
+                # `for i in 0..self.requests.len()` with self.requests untouched inside the loop visits the same elements
+                from lib import range_index
+                ri = range_index(W, ("vfield", sev.call_term(nxt[0]), "Some", 0))
+                okn = ri is not None and ri["container"] == REQS
         ctx.check("send-loop", "iterates-requests", okn, "the loop iterates self.requests.iter().enumerate()", "the send loop is not an iteration over self.requests", sr.loc(sb))
         exits = lp["exits"]
         oke = len(exits) == 1
